@@ -67,9 +67,34 @@ type Envelope struct {
 
 func (e Envelope) EventTypeName() string { return "c09.envelope." + e.Kind }
 
+// PtrMarsh has a pointer-receiver MarshalJSON: encoding/json uses it only for
+// addressable values, so an event published by value encodes field by field
+// (json.Marshal(event) is the stated reference).
+type PtrMarsh struct {
+	ID int    `json:"id"`
+	S  string `json:"s"`
+}
+
+func (p *PtrMarsh) MarshalJSON() ([]byte, error) {
+	return json.Marshal(map[string]any{"id": p.ID, "s": p.S, "via": "pointer-receiver"})
+}
+
+// Holder carries a non-pointer field whose type has a pointer-receiver
+// MarshalText.
+type Holder struct {
+	ID  int     `json:"id"`
+	Tag TextTag `json:"tag"`
+}
+
+type TextTag struct {
+	V string `json:"v"`
+}
+
+func (t *TextTag) MarshalText() ([]byte, error) { return []byte("text:" + t.V), nil }
+
 // Val describes the generated field values of one event.
 type Val struct {
-	Shape string  `json:"shape"` // plain ptr named namedptr namedvalptr envelope
+	Shape string  `json:"shape"` // plain ptr named namedptr namedvalptr envelope ptrmarsh ptrmarshptr holder
 	S     string  `json:"s,omitempty"`
 	F     float64 `json:"f,omitempty"`
 	I64   int64   `json:"i64,omitempty"`
@@ -114,7 +139,7 @@ type rec struct {
 func readAll(store eventbus.EventStore) ([]*eventbus.StoredEvent, error) {
 	var all []*eventbus.StoredEvent
 	cur := eventbus.OffsetOldest
-	for i := 0; i < 100000; i++ {
+	for i := 0; i < 2000; i++ {
 		page, next, err := store.Read(context.Background(), cur, 0)
 		if err != nil {
 			return nil, err
@@ -256,6 +281,9 @@ func Run(c *Case) *vkit.Outcome {
 	eventbus.Subscribe(bus, func(e *NamedPtr) { inHandler(e.ID, e) })
 	eventbus.Subscribe(bus, func(e *Named) { inHandler(e.ID, e) })
 	eventbus.Subscribe(bus, func(e Envelope) { inHandler(e.ID, e) })
+	eventbus.Subscribe(bus, func(e PtrMarsh) { inHandler(e.ID, e) })
+	eventbus.Subscribe(bus, func(e *PtrMarsh) { inHandler(e.ID, e) })
+	eventbus.Subscribe(bus, func(e Holder) { inHandler(e.ID, e) })
 
 	publish := func(id int, v Val) {
 		var ev any
@@ -280,6 +308,18 @@ func Run(c *Case) *vkit.Outcome {
 		case "envelope":
 			// the name varies with the value: S picks one of a few kinds
 			e := Envelope{ID: id, Kind: fmt.Sprintf("k%d", len(v.S)%3)}
+			ev = e
+			eventbus.Publish(bus, e)
+		case "ptrmarsh":
+			e := PtrMarsh{ID: id, S: v.S}
+			ev = e
+			eventbus.Publish(bus, e)
+		case "ptrmarshptr":
+			e := &PtrMarsh{ID: id, S: v.S}
+			ev = e
+			eventbus.Publish(bus, e)
+		case "holder":
+			e := Holder{ID: id, Tag: TextTag{V: v.S}}
 			ev = e
 			eventbus.Publish(bus, e)
 		case "namedvalptr":
@@ -435,6 +475,26 @@ func decodesBack(se *eventbus.StoredEvent, want []byte) bool {
 		v = e
 	case eventbus.EventType(&Ptr{}):
 		var e Ptr
+		if json.Unmarshal(se.Data, &e) != nil {
+			return false
+		}
+		v = e
+	case eventbus.EventType(PtrMarsh{}):
+		var e PtrMarsh
+		if json.Unmarshal(se.Data, &e) != nil {
+			return false
+		}
+		v = e
+	case eventbus.EventType(&PtrMarsh{}):
+		var e PtrMarsh
+		if json.Unmarshal(se.Data, &e) != nil {
+			return false
+		}
+		v = &e
+	case eventbus.EventType(Holder{}):
+		// the stored form is what json.Marshal(event) gave; a value
+		// decoded from it encodes the same way again
+		var e Holder
 		if json.Unmarshal(se.Data, &e) != nil {
 			return false
 		}
